@@ -623,102 +623,15 @@ def run_one_shape(ctx: Ctx, prop, shape):
 
 
 def run_shapes_parallel(ctx: Ctx, prop, shapes, workers=14, hard_s=900):
-    """one forked worker per shape: symbolic build, obligations, discharge; results come back as JSON"""
-    pending = list(shapes)
-    running = {}
-    results = []
-
-    def spawn(sh):
-        r, w = os.pipe()
-        pid = os.fork()
-        if pid == 0:
-            try:
-                os.close(r)
-                sub = Ctx(ctx.prop, ctx.interp, ctx.tier, ctx.seed)
-                sub.timeout_ms = ctx.timeout_ms
-                status, msg = 'ok', ''
-                t0 = time.time()
-                try:
-                    run_one_shape(sub, prop, sh)
-                    sub.discharge_all(workers=2)
-                except Unsupported as e:
-                    status, msg = 'undecided', f'{sh["name"]}: unsupported construct / drift: {e}'
-                out = {'status': status, 'message': msg, 'seconds': time.time() - t0,
-                       'backends': sub.backends, 'backend_s': sub.backend_s,
-                       'obligations': [dict(o.as_dict(), replay=getattr(o, 'replay', None)) for o in sub.obligations]}
-                data = json.dumps(out, default=str).encode()
-                os.write(w, data)
-            except BaseException as e:  # noqa
-                import traceback
-                try:
-                    os.write(w, json.dumps({'status': 'crash', 'message': f'{sh["name"]}: {type(e).__name__}: {e}\n' +
-                                            traceback.format_exc()[-1500:], 'obligations': []}).encode())
-                except Exception:
-                    pass
-            finally:
-                os._exit(0)
-        os.close(w)
-        running[pid] = (sh, r, time.time() + hard_s, b'')
-
-    import select
-    while pending or running:
-        while pending and len(running) < workers:
-            spawn(pending.pop(0))
-        fds = {r: pid for pid, (sh, r, dl, buf) in running.items()}
-        ready, _, _ = select.select(list(fds), [], [], 0.5)
-        for fd in ready:
-            pid = fds[fd]
-            sh, r, dl, buf = running[pid]
-            chunk = os.read(r, 1 << 20)
-            if chunk:
-                running[pid] = (sh, r, dl, buf + chunk)
-            else:
-                os.close(r)
-                try:
-                    os.waitpid(pid, 0)
-                except Exception:
-                    pass
-                del running[pid]
-                try:
-                    results.append((sh, json.loads(buf.decode())))
-                except Exception:
-                    results.append((sh, {'status': 'crash', 'message': f'{sh["name"]}: worker died', 'obligations': []}))
-        for pid in list(running):
-            sh, r, dl, buf = running[pid]
-            if time.time() > dl:
-                try:
-                    os.kill(pid, signal.SIGKILL)
-                    os.waitpid(pid, 0)
-                except Exception:
-                    pass
-                os.close(r)
-                del running[pid]
-                results.append((sh, {'status': 'undecided', 'message': f'{sh["name"]}: time limit', 'obligations': []}))
-    # merge
-    from pyvc.harness import Obligation
-    worst = 'ok'
-    msgs = []
-    for sh, res in results:
-        for od in res.get('obligations', []):
-            o = Obligation(od['id'], od['kind'], od['function'], od.get('text', ''))
-            o.status, o.backend, o.seconds = od['status'], od.get('backend'), od.get('seconds', 0.0)
-            o.detail, o.model, o.replay = od.get('detail', ''), od.get('model'), od.get('replay')
-            o.smt_size = od.get('smt_chars', 0)
-            ctx.obligations.append(o)
-            if o.status in (PROVED, REFUTED) and o.backend:
-                ctx.backends[o.backend] = ctx.backends.get(o.backend, 0) + 1
-        for k, v in (res.get('backend_s') or {}).items():
-            ctx.backend_s[k] = ctx.backend_s.get(k, 0.0) + v
-        if res.get('status') == 'crash':
-            worst = 'crash'
-            msgs.append(res.get('message', ''))
-        elif res.get('status') == 'undecided' and worst != 'crash':
-            worst = 'undecided'
-            msgs.append(res.get('message', ''))
-    return worst, '; '.join(m for m in msgs if m)[:1500]
+    from pyvc.harness import parallel_jobs
+    return parallel_jobs(ctx, shapes, lambda sub, sh: run_one_shape(sub, prop, sh), lambda sh: sh['name'],
+                         workers=workers, hard_s=hard_s)
 
 
 def common_setup(ctx: Ctx, prop):
+    if prop not in ('C03', 'C19'):
+        ctx.level = 'other'
+    ctx.level_explanation = "Generator harness: every obligation is proved for ALL string contents (names, types, texts) of one model/configuration STRUCTURE; the structures are the enumerated shape corpus (bound stated under assumptions), so this is bounded in structure and unbounded in content - reported as level 'other', not as a proof for all models."
     ctx.trusted += ['C++ idiom semantics (S): what each emitted statement kind does at run time (DESIGN.md section 3, table)',
                     'the constant C++ text of the six support headers',
                     'assumption MV-1: no string stored in the model contains a line boundary',
